@@ -50,6 +50,7 @@ STRENGTHENED.update({
  ("C01","r6m3"): "structured P-1 inputs p^2 q [r]: p and q leave stage 1 in different blocks (shape sp2q)",
  ("C01","r6m4"): "volume: several hundred plain 108/120-bit semiprimes through SIQS (branches taken by a fraction of a percent of the inputs)",
  ("C10","r6m1"): "operands whose MONTGOMERY representatives are n-1..n-3 with n = 2^bits - small (pattern mtop) at every packing-class edge",
+ ("C03","r6m2"): "shape topword: p*q just below 2^bits (32..64) for every word-sized selector (k*n, isqrt(k*n) at the word boundary)",
  ("C14","r6m4"): "Gauss on short wide matrices (1x70 .. 3x300: kernels of 65..300 dimensions)",
  ("C18","r6m2"): "one case in three writes into a directory that already holds the relation file of another discriminant",
  ("C19","r6m4"): "the Smith reduction as a presentation (op snf_hom): groups with 3-4 invariant factors, every relation must map to zero",
